@@ -38,7 +38,14 @@ fn tagged_table(v: &Value) -> toml::Table {
 
 struct Out { dir: PathBuf, n: usize, exp: std::io::BufWriter<std::fs::File>, problems: Vec<Mismatch> }
 impl Out {
-    fn path(&mut self) -> PathBuf { self.n += 1; self.dir.join(format!("{}.toml", self.n)) }
+    /// the files are written over an older, longer document (outputs are rewritten build after build)
+    fn path(&mut self) -> PathBuf {
+        self.n += 1;
+        let p = self.dir.join(format!("{}.toml", self.n));
+        let stale: String = (0..60).map(|i| format!("stale-key-{i} = \"left over from an earlier, longer version of this file\"\n")).collect();
+        std::fs::write(&p, stale).unwrap();
+        p
+    }
     fn expect(&mut self, file: &PathBuf, kind: &str, doc: Value, origin: Value) {
         writeln!(self.exp, "{}", json!({"file": file, "kind": kind, "expected": doc, "origin": origin})).unwrap();
     }
